@@ -150,6 +150,7 @@ type ejectObs struct {
 	Bytes   int
 	Before  [][]string // per worker trace ids buffered before
 	After   [][]string
+	FullPath bool // driven through MaxAlloc and the monitor instead of the hook
 }
 
 type decisionObs struct {
@@ -628,6 +629,17 @@ func runInBubble(c colCase, opt execOpts, obs *colObs) {
 			coll.VerifEject(e.Bytes)
 			synctest.Wait()
 			e.After = sortedBuf(coll.VerifBufferedTraceIDs())
+			obs.Ejects = append(obs.Ejects, e)
+		case "memlimit":
+			// full path: a 1-byte memory limit makes the collector's own monitor (checkAlloc, heap
+			// reading, overage split across workers) request an ejection larger than any buffer
+			e := ejectObs{OpIndex: i, At: now, Bytes: 1 << 40, Before: sortedBuf(coll.VerifBufferedTraceIDs())}
+			mock.SetMaxAlloc(1)
+			time.Sleep(100 * time.Millisecond) // one monitor tick
+			synctest.Wait()
+			mock.SetMaxAlloc(0)
+			e.After = sortedBuf(coll.VerifBufferedTraceIDs())
+			e.FullPath = true
 			obs.Ejects = append(obs.Ejects, e)
 		case "stop":
 			stop(i)
